@@ -53,6 +53,6 @@ MANIFEST_CHECKS = {
         "technique": "deterministic simulation: seeded insert/delete histories on live tiers vs an executable list model, step-by-step, with rejected-call faults",
         "design_ref": "DESIGN.md s4 C11",
         "text": "Seeded search over histories (3-12 steps quick, up to 24 thorough) of insertEntry/deleteEntry on interval and point tiers of up to 8/24/40/120/320 entries, including tiers derived by other operations, inserts that resurrect deleted entries, entries as tuples/lists/namedtuples, ints and floats, option strings as fresh str objects; after every step outcome class, entries (exact, field by field) and span are compared with a list model; failing calls (collision in error mode, degenerate entry, missing entry, invalid option) must leave the tier unchanged; delete targets that differ from a stored entry by one ulp are accepted either way but nothing else may change. Sampling, not proof.",
-        "note": "Trusted: the list model in dsim/models.py (60 lines), Python's float comparison. Whether an entry that differs from a stored one by rounding noise is 'the given entry' is left open by the statement: both behaviours are accepted there (relaxed oracle). Point tiers with duplicate times at construction and collisionReportingMode='error' (outside the documented domain) are not generated.",
+        "note": "Trusted: the list model in dsim/models.py (60 lines), Python's float comparison. Whether an entry that differs from a stored one by rounding noise is 'the given entry' is left open by the statement: both behaviours are accepted there (relaxed oracle). collisionReportingMode='error' (accepted at run time but outside the documented Literal domain) is not generated.",
     },
 }
